@@ -5,8 +5,9 @@ def c09_stages(ctx):
     cfg = "OSPath.quick.cfg" if ctx.tier == "quick" else "OSPath.thorough.cfg"
     # pure mapping functions: TLC enumerates FS configurations x names x OS paths with the required result
     graph_stage(ctx, "ospath-map", "MC_OSPath.tla", cfg, "ospath", ["ospath"], workers=8)
-    # failing real system calls through os.FS rooted in a temp directory (0..2 nested Sub roots)
-    graph_stage(ctx, "ospath-oserr", "MC_OSPath.tla", "OSPath.oserr.cfg", "ospath", ["oserr"], workers=4)
+    # failing real system calls through os.FS rooted in a temp directory (0..2 nested Sub roots); oserr0: the same calls
+    # on NewFS() itself, with no root at all until the first Sub
+    graph_stage(ctx, "ospath-oserr", "MC_OSPath.tla", "OSPath.oserr.cfg", "ospath", ["oserr", "oserr0"], workers=4)
 
 
 CHECKS.update({
